@@ -55,7 +55,7 @@ def run(ctx):
     if not f:
         ctx.missing("C19.read", "ShapeType::read_from")
     else:
-        ps, _ = util.run_fn(F, f)
+        ps, _ = util.run_fn(F, f, summarise_pure=False)
         seen_codes = set()
         for p in ps:
             ios = p.io()
